@@ -10,7 +10,10 @@ allocator), coq/Mem/Estimate.v (parameter resolution, estimate side, reservation
       the streaming decoder's buffer sizes / rejections / allocations on hand-made frames;
 and supported (not replaced) by the direct oracle: "a context of exactly the estimate completes the operation and
 touches nothing outside; a smaller one fails cleanly; sizeof never under-reports; the decoder rejects windows above
-the limit before allocating and never exceeds the budget"."""
+the limit before allocating and never exceeds the budget".
+Round 2 (tie_round2, harness/c14_own.c, models coq/Mem/DOwner.v, CDictLevel.v, C14Round2.v): what a DCtx owns and reports
+along histories of operations, static contexts never reach an allocator, ZSTD_copyDCtx, legacy frames vs the window limit,
+ZSTD_estimateDStreamSize_fromFrame, static CDict from a level, raw cParams through ZSTD_compress_advanced."""
 import json
 import os
 import random
@@ -18,6 +21,7 @@ import random
 from zv import core
 
 PID = "C14"
+OWN_FLAGS = ["-w", "-Wl,--wrap=malloc", "-Wl,--wrap=calloc"]    # harness/c14_own.c counts every malloc/calloc of the process
 UNKNOWN = (1 << 64) - 1
 KB = 1 << 10
 LEVELS = None  # filled from Gen_C14
@@ -196,6 +200,8 @@ class Run:
         else:
             self.model = Proc(mexe)
             self.c = Proc(cexe)
+        oexe = core.build_harness("c14_own", ["c14_own.c"], variant=variant, extra_flags=OWN_FLAGS)
+        self.own = Proc(oexe, env=self.c.env)        # round 2: ownership / reported sizes / static contexts never allocate
         self.cap = 22 if ctx.quick else 25          # largest table log used in sessions
         self.mem_cap = (96 << 20) if ctx.quick else (900 << 20)
         self.disagreements = []                     # (kind, case, c, model)
@@ -210,9 +216,9 @@ class Run:
         """report an oracle failure on the implementation; at most [cap] per case kind (all are counted in the notes)"""
         kind = replay.get("kind", "?")
         self.nrep = getattr(self, "nrep", {})
-        self.nrep[kind] = self.nrep.get(kind, 0) + 1
+        self.nrep[(kind, key)] = self.nrep.get((kind, key), 0) + 1       # keyed and un-keyed failures are capped separately
         self.h("oracle-failure:" + kind)
-        if self.nrep[kind] <= cap or key:
+        if self.nrep[(kind, key)] <= cap:
             self.ctx.violation(replay, what=what, key=key)
 
     # ---- (1) estimate values -------------------------------------------------------------------------
@@ -984,6 +990,252 @@ class Run:
         over.sort(key=lambda x: (x[1] * (1 + max(0, x[0] - 12) ** 2), x[0]))      # cheap to compress first
         return [dict(kind="L" if kind == "L" else "LS", l=l, L=L, srcLen=s, seed=1) for l, s in over[:4]]
 
+    # ---- (7) round 2: what a DCtx owns / reports, static contexts never allocate, legacy path, fromFrame, CDict by level
+    OWN_KINDS = ("DOWN", "SDCT", "SCCT", "CPD", "LEGACY", "DFF", "CDLVL", "CSZ", "OSZ", "MTI", "ADV")
+
+    def own_history_cases(self):
+        rng, ctx = self.rng, self.ctx
+        refs = lambda ids: ["R%x" % i for i in ids]
+        cases = []
+        # the counts asked for: 1, 64, 65, 200 DDicts (table 64 -> 128 -> ... by the load-factor rule), incl. a replaced ID
+        for n in (1, 15, 16, 17, 64, 65, 200):
+            cases.append(["M1"] + refs(range(1, n + 1)) + ["R1", "F0/c8", "Z"])
+        cases.append(["M1", "R1", "R2", "R3", "L100/0", "F0/c8", "Z", "R5", "M1", "R6", "N"])
+        cases.append(["L3e8/0", "L3e8/1", "L0/0", "Lf4240/0", "N", "L7/0", "Z"])
+        cases.append(["M1", "R7", "C0", "R8", "C1", "R9", "L64/0", "C1", "R9"])
+        cases.append(["P64", "F0/c8", "F0/c8", "F0/c8", "P0", "F0/1", "L3e8/0", "C0", "F0/c8", "P10", "Pffff", "Z", "F8/5"])
+        dur = gen_const("c_ZSTD_WORKSPACETOOLARGE_MAXDURATION")
+        cases.append(["F50/bb8"] + ["F0/64"] * (dur + 3) + ["F48/1f4", "L1000/0", "F8/7"])       # oversize-shrink reallocation
+        for _ in range(12 if ctx.quick else 150):
+            ops = []
+            for _ in range(rng.randint(3, 40)):
+                k = rng.choice("RRRRRRMLLFFFNZCP")
+                if k == "R":
+                    ops.append("R%x" % rng.choice([1, 2, 3, rng.randint(1, 40), rng.randint(1, 1 << 31)]))
+                elif k == "M":
+                    ops.append("M%d" % rng.choice([0, 1, 1]))
+                elif k == "L":
+                    ops.append("L%x/%d" % (rng.choice([0, 1, 7, 8, 100, 4096, 100000]), rng.choice([0, 0, 1])))
+                elif k == "F":
+                    ops.append("F%x/%x" % (rng.choice([0, 1, 7, 8, 9, 17, 40, 57]), rng.choice([0, 1, 200, 1000])))
+                elif k == "C":
+                    ops.append("C%d" % rng.choice([0, 1]))
+                elif k == "P":
+                    ops.append("P%x" % rng.choice([0, 1, 64, 5000]))
+                else:
+                    ops.append(k)
+            cases.append(ops)
+        return cases
+
+    def tie_round2(self):
+        ctx, rng = self.ctx, self.rng
+        import re
+        dctx = gen_const("sizeof_ZSTD_DCtx")
+        # (a) ownership histories on a heap DCtx: code == model token by token (rc / live bytes / ZSTD_sizeof_DCtx /
+        #     hash-set table size / count), direct oracle: sizeof >= live after every operation, free releases all
+        hl = ["DOWN 0 " + " ".join(ops) for ops in self.own_history_cases()]
+        cr, mr = par_run(self.own, hl), par_run(self.model, hl)
+        for ln, a, b in zip(hl, cr, mr):
+            self.h("own:history")
+            toks = [t for t in a.split() if "/" in t and not t.startswith("free=")]
+            ctx.count(("down", len(toks) > 20, "M1" in ln, bool(re.search(r" L[1-9a-f]", ln)), " C1" in ln, " F" in ln, a.split()[0] if a else "EMPTY"))
+            what = None
+            if not a or a.startswith(("SEGV", "CRASH")) or "BADTOKEN" in a:
+                what = "DCtx ownership history crashes: %s" % a[:100]
+            else:
+                for i, t in enumerate(toks):
+                    f = t.split("/")
+                    if int(f[2], 16) < int(f[1], 16):
+                        what = ("ZSTD_sizeof_DCtx reports %d while the context holds %d bytes (operation #%d %s of the history; hash set of %d slots)"
+                                % (int(f[2], 16), int(f[1], 16), i + 1, ln.split()[2 + i], int(f[3], 16)))
+                        break
+                if not what and ("live=0" not in a or "badfree=0" not in a or "free=OK" not in a):
+                    what = "ZSTD_freeDCtx after an ownership history leaves bytes behind or frees a foreign pointer: %s" % a[-60:]
+            if what:
+                self.report(dict(kind="own-history", c_case=ln, c_result=a[:1500], model_result=b[:1500], harness="c14_own"), what)
+                continue
+            ctx.cov["traces_validated_against_impl"] += 1
+            if a.replace(" badfree=0", "") != b:
+                self.disagreements.append(("own-history", ln, a[:400], b[:400]))
+        ctx.sample(dict(kind="dctx-ownership", c_case=hl[1][:200], c_result=cr[1][:300], model=mr[1][:300]))
+        # (b) a static DCtx asked to create a dictionary internally / to enter the multi-DDict mode: error, no allocation,
+        #     no crash whatever bytes the workspace held; the context stays usable   (fixes 11c6d2b, c6e8f36)
+        sl = ["SDCT %x %x %s" % (fill, pl, op) for fill in (0, 0xaa, 0xff, 0x55) for op in "LAPUEMG" for pl in (1, rng.choice([0, 2, 5]))]
+        for ln, a in zip(sl, par_run(self.own, sl)):
+            self.h("own:static-dict")
+            op = ln.split()[3]
+            ctx.count(("sdct", op, ln.split()[1], a.split()[0] if a else "EMPTY"))
+            want = {"E": "rc=OK", "M": "rc=E40"}.get(op, "rc=M")
+            if not (a.startswith(want + " growth=0 ") and a.endswith("after=OK/c8")):
+                self.report(dict(kind="static-dctx-dict", c_case=ln, c_result=a, harness="c14_own"),
+                            "a STATIC DCtx asked for an internal dictionary (%s, workspace filled with 0x%s) must answer %s without touching an "
+                            "allocator and stay usable; got: %s" % (op, ln.split()[1], want, a[:120]), key="C14-static-dctx-allocates")
+        # (b') a static CCtx driven towards every allocation site of zstd_compress.c: no malloc / calloc in the whole process
+        #      while it works (link-time --wrap), the operation either fails cleanly or completes; the context stays usable
+        keys = {"W": "C14-static-cctx-mt-via-cctxparams", "S": "C14-static-cctx-mt-via-cctxparams", "T": "C14-static-cctx-mt-via-cctxparams",
+                "B": "C14-static-cctx-localdict-byref", "Q": "C14-generatesequences-default-malloc"}
+        cl2 = ["SCCT %x %s" % (rng.choice([0, 1, 2]), op) for op in ("N0", "W1", "W2", "S2", "T2", "D2", "B0", "Y0", "P0", "R0", "Q0")]
+        for ln, a in zip(cl2, par_run(self.own, cl2, chunks=4)):
+            self.h("own:static-cctx")
+            op = ln.split()[2][0]
+            m = re.match(r"set=(\S+) rc=(\S+) mallocs=([0-9a-f]+) bytes=([0-9a-f]+) sizeof=([0-9a-f]+) block=([0-9a-f]+)( rt=(\S+))? after=(\S+)$", a)
+            ctx.count(("scct", op, m.group(1) if m else "?", m.group(2) if m else a.split()[0] if a else "EMPTY", bool(m and int(m.group(3), 16))))
+            what = None
+            if not m:
+                what = "static CCtx scenario %s: %s" % (ln, a[:100])
+            elif int(m.group(3), 16):
+                what = ("a STATIC CCtx (block of %d bytes) made the process call malloc %d times for %d bytes (scenario %s: W/S/T = nbWorkers through "
+                        "CCtx_params + compress2 / compressStream2 / with a thread pool, B = loadDictionary_byReference, Q = generateSequences); "
+                        "ZSTD_sizeof_CCtx = %d" % (int(m.group(6), 16), int(m.group(3), 16), int(m.group(4), 16), ln.split()[2], int(m.group(5), 16)))
+            elif m.group(9) != "OK" or (m.group(8) and m.group(8) != "ok") or m.group(2) not in ("OK", "M", "E40") or m.group(1) not in ("OK", "M", "E40"):
+                what = "static CCtx scenario %s misbehaves: %s" % (ln.split()[2], a[:120])
+            elif op in "NPR" and (m.group(1), m.group(2)) != ("OK", "OK"):
+                what = "static CCtx refuses an operation that needs no allocation (%s): %s" % (ln.split()[2], a[:100])
+            if what:
+                self.report(dict(kind="static-cctx", c_case=ln, c_result=a, harness="c14_own"), what, key=keys.get(op) if (m and int(m.group(3), 16)) else None)
+        # (c) ZSTD_copyDCtx across static / heap contexts (fix 15cfcd6), multi-DDict flag smuggled into a static context (c6e8f36)
+        want = {"CPD a": r"rc=OK/c8 static-allocs=0 badfree=0 staticSize=[1-9a-f][0-9a-f]*$", "CPD b": r"rc=OK/c8 free=OK live=0 badfree=0$",
+                "CPD c": r"free=OK/OK live=0 badfree=0$", "CPD cs": r"free=OK/OK live=0 badfree=0$", "CPD m": r"rc=M growth=0 set=0 static-allocs=0$"}
+        cl = sorted(want)
+        for ln, a in zip(cl, self.own.run(cl)):
+            self.h("own:copydctx")
+            ctx.count(("cpd", ln, a.split()[0] if a else "EMPTY"))
+            if not re.match(want[ln], a):
+                self.report(dict(kind="copy-dctx", c_case=ln, c_result=a, harness="c14_own"),
+                            "ZSTD_copyDCtx must not transfer ownership (allocator, staticSize, local dictionary, DDict set): scenario '%s' "
+                            "(a: static<-heap, b: heap<-static, c: heap<-heap owning a dictionary, m: static<-heap in multi-DDict mode) "
+                            "expected /%s/, got: %s" % (ln, want[ln], a[:120]), key="C14-copydctx-ownership")
+        # (d) legacy frames vs the window limit (KNOWN finding C14-legacy-stream-ignores-window-limit)
+        ll = []
+        for ver in (5, 6, 7):
+            lo = {5: 11, 6: 12, 7: 10}[ver]
+            for wlog, lim in ((lo, 10), (lo, 27), (20, 10), (20, 20), (20, 21), (27 if ver == 7 else 26, 10), (rng.randint(lo, 24), rng.randint(10, 27))):
+                ll.append("LEGACY %x %x %x %x" % (ver, wlog, lim, rng.choice([0, 5, 300])))
+        le = par_run(self.c, ["EDSTREAM " + hx(1 << int(l.split()[3], 16)) for l in ll])
+        for ln, a, e in zip(ll, par_run(self.own, ll), le):
+            self.h("own:legacy")
+            f = ln.split(); ver, wlog, lim = int(f[1], 16), int(f[2], 16), int(f[3], 16)
+            m = re.match(r"rc=(\S+) out=([0-9a-f]+) growth=([0-9a-f]+) sizeof=([0-9a-f]+) dctx=([0-9a-f]+)$", a)
+            ctx.count(("legacy", ver, wlog > lim, m.group(1) if m else a.split()[0] if a else "EMPTY"))
+            if not m:
+                self.report(dict(kind="legacy", c_case=ln, c_result=a, harness="c14_own"), "legacy frame through ZSTD_decompressStream: %s" % a[:100])
+                continue
+            rc, growth, so = m.group(1), int(m.group(3), 16), int(m.group(4), 16)
+            budget = int(e, 16) - dctx
+            if rc == "OK" and (wlog > lim or growth > budget or so < dctx + growth):
+                self.report(dict(kind="legacy", c_case=ln, c_result=a, harness="c14_own"),
+                            "v0.%d frame with windowLog %d through a streaming decoder limited to 2^%d: accepted, %d bytes allocated (budget of the limit: %d), "
+                            "ZSTD_sizeof_DCtx = %d" % (ver, wlog, lim, growth, budget, so), key="C14-legacy-stream-ignores-window-limit")
+            elif rc not in ("OK", "W", "M"):
+                self.report(dict(kind="legacy", c_case=ln, c_result=a, harness="c14_own"), "valid legacy frame fails with %s" % rc)
+        # (e) ZSTD_estimateDStreamSize_fromFrame + static DStream of exactly that size decodes the frame
+        fl = []
+        for k, wl, ln_ in ([("s", 0, n) for n in (0, 1, 3, 4, 5, 255, 256, 1000, 1023, 1024, 1025, 70000, 131071)]
+                           + [("u", w, n) for w in (0, 1, 7, 8, 9, 56, 57) for n in (0, 1, 1000)]
+                           + [("k", w, n) for w in (0, 15, 40) for n in (5, 1024, 5000)]
+                           + [(rng.choice("suk"), rng.randint(0, 60), rng.choice([0, 1, 100, 1024, 4097, 100000])) for _ in range(10 if ctx.quick else 100)]):
+            if k != "s":
+                ln_ = min(ln_, (1 << (10 + (wl >> 3))), 131071)
+            fl.append((k, wl, ln_))
+        dl = ["DFF %x %s %x %x %x" % (rng.choice([0, 1, 1, 3]), k, wl, n, rng.choice([1, 3, 1000])) for (k, wl, n) in fl]
+        ml_e = ["EDFF %d %x %x" % (1 if k == "s" else 0, wl, n) for (k, wl, n) in fl]
+        ea = par_run(self.model, ml_e)
+        ml_s = []
+        for (k, wl, n), e in zip(fl, ea):
+            w = n if k == "s" else ((1 << (10 + (wl >> 3))) * (8 + (wl & 7)) // 8)
+            ml_s.append("DSTREAM %s %x 0 1 %x:%x" % (e if e != "ERR" else "0", 1 << 31, w, n if k != "u" else UNKNOWN))
+        ms = par_run(self.model, ml_s)
+        for ln, a, e, m_ in zip(dl, par_run(self.own, dl), ea, ms):
+            self.h("own:fromframe")
+            ctx.count(("dff", ln.split()[2], a.split()[0] if a else "EMPTY", int(ln.split()[4], 16) < 1024))
+            if not a.startswith("OK "):
+                self.report(dict(kind="fromframe", c_case=ln, c_result=a, model_estimate=e, harness="c14_own"),
+                            "static DStream of ZSTD_estimateDStreamSize_fromFrame(frame) cannot decode that frame: %s" % a[:100])
+                continue
+            ctx.cov["traces_validated_against_impl"] += 1
+            mm = re.match(r"K/([0-9a-f]+)/([0-9a-f]+)/", m_)
+            got = re.match(r"OK est=([0-9a-f]+) in=([0-9a-f]+) out=([0-9a-f]+)", a)
+            f = ln.split()
+            shortcut = f[2] != "u" and int(f[4], 16) <= 3       # content size known and <= the 3-byte output steps: single-pass shortcut, no buffers
+            if got.group(1) != e or not mm or (not shortcut and (got.group(2), got.group(3)) != (mm.group(1), mm.group(2))):
+                self.disagreements.append(("fromframe", ln, a, "est=%s %s" % (e, m_)))
+        # (f) static CDict from a level, the recipe of zstd.h (KNOWN finding C14-cdict-level-estimate-vs-getcparams)
+        kl = []
+        for d in (0, 1, 100, 1000, 4096, 10000, 16 * KB - 500, 16 * KB, 112640, 200000):
+            for lvl in (1, 3, 5, 9, 13, 19) if ctx.quick else range(1, 23):
+                kl.append((rng.choice([0, 1, 2]), d, lvl, rng.choice([0, 0, 0, 513, 100000])))
+        cl_ = ["CDLVL %x %x %x %x" % t for t in kl]
+        ca = par_run(self.own, cl_)
+        starts = {}
+        ma = par_run(self.model, ["CDLVL %x %x %x %x" % (8 * pl, d, lvl, hint) for (pl, d, lvl, hint) in kl])
+        for ln, a, b, (pl, d, lvl, hint) in zip(cl_, ca, ma, kl):
+            self.h("own:cdict-level")
+            ctx.count(("cdlvl", a.split()[0] if a else "EMPTY", d <= 10000, hint, lvl > 12))
+            if a.split()[0] not in ("OK", "NULL"):
+                self.report(dict(kind="cdict-level", c_case=ln, c_result=a, model_result=b, harness="c14_own"), "static CDict from a level: %s" % a[:100])
+                continue
+            ctx.cov["traces_validated_against_impl"] += 1
+            if a != b:
+                self.disagreements.append(("cdict-level", ln, a, b))
+            elif a.startswith("NULL"):
+                est = int(re.search(r"est=([0-9a-f]+)", a).group(1), 16); adv = int(re.search(r"adv=([0-9a-f]+)", a).group(1), 16)
+                self.report(dict(kind="cdict-level", c_case=ln, c_result=a, model_result=b, harness="c14_own"),
+                            "ZSTD_initStaticCDict refuses a block of ZSTD_estimateCDictSize(%d, %d) = %d bytes for cParams = ZSTD_getCParams(%d, %d, %d) "
+                            "(needs %d)" % (d, lvl, est, lvl, hint, d, adv), key="C14-cdict-level-estimate-vs-getcparams" if est < adv else None)
+        # (g) reported sizes of heap objects with a counting allocator: CCtx (local dictionary, multithreading, LDM), CDict, DDict
+        zl = []
+        for nbw, ldm, dsz, byref, lvl, n in ([(0, 0, 0, 0, 3, 20000), (0, 0, 1000, 0, 3, 20000), (0, 0, 1000, 1, 5, 20000), (0, 1, 0, 0, 3, 300000),
+                                               (1, 0, 5000, 0, 1, 300000), (2, 1, 0, 0, 3, 400000), (2, 1, 70000, 0, 7, 400000), (0, 0, 100000, 0, 13, 50000)]
+                                              + [(rng.choice([0, 0, 1, 2, 3]), rng.choice([0, 1]), rng.choice([0, 8, 999, 40000]), rng.choice([0, 1]),
+                                                  rng.choice([-3, 1, 3, 6, 9]), rng.choice([0, 1, 70000, 600000])) for _ in range(6 if ctx.quick else 60)]):
+            zl.append("CSZ %x %x %x %x %s %x" % (nbw, ldm, dsz, byref, hx(lvl), n))
+        for d in (0, 1, 1000, 100000):
+            for br in (0, 1):
+                zl.append("OSZ %x %x %s" % (d, br, hx(rng.choice([1, 3, 9, 16]))))
+        for ln, a in zip(zl, par_run(self.own, zl, chunks=6)):
+            self.h("own:sizeof")
+            ctx.count(("sizeof", ln.split()[0], ln.split()[1], ln.split()[2], a.split()[0] if a else "EMPTY"))
+            if not a.startswith("OK ") or (ln.startswith("OSZ") and not a.endswith("end=0")):
+                self.report(dict(kind="sizeof", c_case=ln, c_result=a, harness="c14_own"),
+                            "reported size of a live heap object is below the bytes it holds, or bytes are left behind: %s -> %s" % (ln, a[:120]))
+        # (h) a multithreaded CCtx in the MIDDLE of a frame (compressed jobs waiting to be flushed)
+        il = ["MTI %x %x %s %x" % t for t in [(2, 0, "1", 12 << 20), (1, 0, "3", 6 << 20), (2, 1, "1", 10 << 20)]]
+        for ln, a in zip(il, par_run(self.own, il, chunks=3)):
+            self.h("own:sizeof-mt-inflight")
+            ctx.count(("mti", ln.split()[1], ln.split()[2], a.split()[0] if a else "EMPTY"))
+            if a.startswith("UNDER"):
+                self.report(dict(kind="sizeof-mt-inflight", c_case=ln, c_result=a, harness="c14_own"),
+                            "ZSTD_sizeof_CCtx under-reports a multithreaded context in the middle of a frame (unflushed job output buffers): %s" % a[:140],
+                            key="C14-sizeof-cctx-mt-inflight-buffers")
+            elif not (a.startswith("OK ") and a.endswith("end=0 badfree=0")):
+                self.report(dict(kind="sizeof-mt-inflight", c_case=ln, c_result=a, harness="c14_own"), "multithreaded heap CCtx: %s -> %s" % (ln, a[:120]))
+        # (i) "estimate_usingCParams(c) + exactly c" through ZSTD_compress_advanced (raw cParams): KNOWN finding when hashLog > 24 + rowLog
+        al = [(1, 0x1d, 1, 3), (rng.choice([0, 2]), 0x1e, 1, 4), (1, 0x18, 1, 3), (0, 0x14, 6, 5), (1, 0x1d, 1, 2)] + ([] if ctx.quick else [(0, 0x1c, 1, 3)])
+        if self.variant != "o1":
+            al = [t for t in al if t[1] < 0x1c or t[3] in (3, 4)][:3]      # sanitizer build: only blocks that are refused untouched, or small ones
+        alines = ["ADV %x %x %x %x" % t for t in al]
+        ae = par_run(self.model, ["ECCTXCP 14 6 %x %x 4 0 %x" % (h_, sl_, st_) for (_, h_, sl_, st_) in al])
+        an = par_run(self.model, ["NEEDRAW 14 6 %x %x 4 0 %x 186a0" % (h_, sl_, st_) for (_, h_, sl_, st_) in al])
+        for ln, a, e, nd, (_, h_, sl_, st_) in zip(alines, par_run(self.own, alines, chunks=3, timeout=600), ae, an, al):
+            self.h("own:advanced-raw")
+            m = re.match(r"advanced=(\S+) compress2=(\S+) est=([0-9a-f]+)$", a)
+            ctx.count(("adv", h_, sl_, st_, m.group(1) if m else a.split()[0] if a else "EMPTY"))
+            if not m or m.group(2) != "OK" or m.group(1) not in ("OK", "M"):
+                self.report(dict(kind="advanced-raw", c_case=ln, c_result=a, harness="c14_own"), "static CCtx of estimateCCtxSize_usingCParams(c): %s -> %s" % (ln, a[:100]))
+                continue
+            ctx.cov["traces_validated_against_impl"] += 1
+            model_refuses = int(nd, 16) > int(e, 16)
+            if m.group(3) != e or model_refuses != (m.group(1) == "M"):
+                self.disagreements.append(("advanced-raw", ln, a, "est=%s need=%s" % (e, nd)))
+            elif m.group(1) == "M":
+                self.report(dict(kind="advanced-raw", c_case=ln, c_result=a, model_need=nd, harness="c14_own"),
+                            "ZSTD_compress_advanced with exactly c = {20, 6, hashLog %d, searchLog %d, 4, 0, strategy %d} on a static CCtx of "
+                            "ZSTD_estimateCCtxSize_usingCParams(c) = %d bytes -> memory_allocation (raw cParams need %d); ZSTD_compress2 with the same "
+                            "parameters succeeds" % (h_, sl_, st_, int(e, 16), int(nd, 16)),
+                            key="C14-advanced-raw-cparams-vs-estimate" if h_ > 24 + max(4, min(sl_, 6)) else None)
+        core.log("C14 round-2 ties: %d ownership histories, %d static-dict, %d legacy, %d fromFrame, %d cdict-level, %d sizeof cases; %d disagreements so far"
+                 % (len(hl), len(sl), len(ll), len(dl), len(cl_), len(zl), len(self.disagreements)))
+
     # ---- SEARCH: a model/code disagreement or a broken proof is not yet a violation ----------------------------
     def search(self, seeds):
         """seeds: list of (kind, case...) disagreements.  Runs the direct oracle on the implementation around them."""
@@ -1037,6 +1289,15 @@ def replay(ctx, obj):
     rp = obj.get("replay", obj)
     c = Proc(core.build_harness("c14_harness", ["c14_harness.c"], variant="o1", extra_flags=["-w"]))
     line = rp.get("c_case") or rp.get("case")
+    if isinstance(line, str) and line.split()[0] in Run.OWN_KINDS:
+        c = Proc(core.build_harness("c14_own", ["c14_own.c"], variant="o1", extra_flags=OWN_FLAGS))
+        r = c.run([line])[0]
+        core.log("replay:", line[:200], "->", r[:300])
+        ctx.sample(dict(kind="replay", case=line, result=r))
+        ctx.count(("replay", r.split()[0] if r else "EMPTY"))
+        if r == rp.get("c_result", "")[:len(r)] or rp.get("c_result", "").startswith(r[:40]):
+            ctx.violation(rp, what="replay reproduces: %s -> %s" % (line[:120], r[:160]))
+        return
     if not isinstance(line, str):
         core.log("replay file carries no executable case line: %r" % (rp,))
         ctx.violation(rp, what="replay: " + obj.get("what", ""), no_input=True)
@@ -1070,7 +1331,12 @@ def run(ctx):
         "ZSTD_getCParams_internal over level x srcSize x dictSize x mode boundaries; sessions: level pairs l<=L, cParams corners "
         "(minMatch 3, searchLog 3..7, every strategy, windowLog 10/14/15/cap), LDM corners, each at estimate (several "
         "placements against PROT_NONE guard pages) and at estimate-delta; decoder: hand-made frames with window descriptors "
-        "around the limit, single-segment frames, oversize-shrink histories; all randomness from random.Random(VERIF_SEED). "
+        "around the limit, single-segment frames, oversize-shrink histories; round 2: DCtx ownership histories (1/15/16/17/64/65/200 "
+        "DDicts, replaced IDs, local dictionary by copy / by reference / as prefix, frames, resets, ZSTD_copyDCtx) with a counting "
+        "allocator, static DCtx (4 fill bytes x 7 operations) and static CCtx (11 operations) with every malloc of the process counted, "
+        "ZSTD_copyDCtx across static/heap, legacy v0.5-0.7 frames around the window limit, fromFrame sessions (single segment 0..131071, "
+        "descriptors 0..60), CDict by level (10 dictionary sizes x levels x hints), sizeof of heap CCtx/CDict/DDict incl. a multithreaded "
+        "context mid-frame, raw cParams through ZSTD_compress_advanced; all randomness from random.Random(VERIF_SEED). "
         "distinct_nontrivial counts distinct (case kind, outcome, parameter shape: strategy / minMatch=3 / rowLog / row mode / LDM / "
         "buffer modes / level pair / source-size tier, number of reservations) signatures; SKIP outcomes are trivial.")
     if ctx.replay_file:
@@ -1084,6 +1350,7 @@ def run(ctx):
     r.tie_decoder()
     r.tie_heap()
     r.tie_history()
+    r.tie_round2()
     if not ctx.quick:
         # supporting test: the same ties against an ASAN+UBSAN build (workspace poisoning + redzones: a write between
         # two reserved objects is reported by ASAN; the model runs with the redzone of that build)
@@ -1096,6 +1363,7 @@ def run(ctx):
         ra.tie_dicts()
         ra.tie_heap()
         ra.tie_history()
+        ra.tie_round2()
         ctx.notes["asan_pass"] = "values, sessions, static CDict/DDict, heap, histories re-run against the asan build with redzone %s; %d new disagreements" % (
             hx(gen_const("c_ZSTD_CWKSP_ASAN_REDZONE_SIZE")), len(r.disagreements) - n0)
     ctx.notes["case_histogram"] = dict(sorted(r.hist.items()))
